@@ -3,6 +3,7 @@
 D=/verif/seeded/$1; P=$2; T=${3:-quick}; shift; shift; shift
 git -C /repo diff --quiet || { echo "/repo not clean"; exit 9; }
 git -C /repo apply $D/patch.diff || exit 9
+trap "git -C /repo checkout -- ." EXIT INT TERM HUP
 /verif/check $P --tier $T --no-evidence "$@" > $D/check_${P}_$T.log 2>&1; RC=$?
 git -C /repo checkout -- .
 echo "$D $P $T rc=$RC"; grep -E "^(VIOLATION|INCONCLUSIVE|KNOWN)" $D/check_${P}_$T.log | head -5
